@@ -71,8 +71,8 @@ Record program := mkProg { p_funs : list fundef; p_main : stmt }.
 (* ------------------------------------------------------------------------------------------ *)
 (* ownership actions                                                                            *)
 (* ------------------------------------------------------------------------------------------ *)
-Inductive place := PSlot (s : nat) | PPart (s k : nat).
-Definition root (p : place) : nat := match p with PSlot s => s | PPart s _ => s end.
+Inductive place := PSlot (s : nat) | PPart (s k : nat) | PTail (s : nat).   (* PTail: all components of s (a list's elements) *)
+Definition root (p : place) : nat := match p with PSlot s => s | PPart s _ => s | PTail s => s end.
 
 Inductive instr :=
 | ISkip
@@ -82,6 +82,8 @@ Inductive instr :=
 | IMove (d s : nat)                      (* load/store of the value struct: claim *)
 | IFree (s : nat)                        (* the type's free function on alloca s *)
 | IConcat (d a : nat) (b : place)        (* ddp_string_string_verkettet(d, a, b): a is reallocated and emptied *)
+| IGrow (d a : nat) (n : N)              (* d := a with its own buffer reallocated to n bytes (ddp_reallocate(a.buf, cap, n)); a emptied *)
+| IOverwritePart (s k src : nat)         (* store src into component k of s WITHOUT releasing what was there *)
 | IAbsorb (d s : nat)                    (* claim s into a new component position of d *)
 | IAbsorbCopy (d : nat) (p : place)      (* deep copy of p into a new component position of d *)
 | IAssignPart (s k src : nat)            (* free function on component k of s, then claim src into it *)
@@ -710,6 +712,7 @@ Definition read_place (st : rstate) (p : place) : list (option blk) :=
   match p with
   | PSlot s => blocks_of (sget (r_store st) s)
   | PPart s k => [nth k (blocks_of (sget (r_store st) s)) None]
+  | PTail s => tl (blocks_of (sget (r_store st) s))
   end.
 
 (* allocate a fresh n-byte block (n = 0: the empty value, no call) *)
@@ -749,6 +752,7 @@ Definition place_eqb (p q : place) : bool :=
   match p, q with
   | PSlot a, PSlot b => Nat.eqb a b
   | PPart a k, PPart b j => Nat.eqb a b && Nat.eqb k j
+  | PTail a, PTail b => Nat.eqb a b
   | _, _ => false
   end.
 
@@ -825,6 +829,23 @@ Fixpoint run (fuel : nat) (i : instr) (st : rstate) {struct i} : outcome * rstat
         let st1 := mkR (r_store st) (N.succ id) (Ev ida na n id :: r_led st) (r_oracle st) in
         (ONormal, sset (sset st1 d (Res (Some (id, n) :: tl ba))) a (Res [None]))
     end
+  | IGrow d a n =>
+    (* memory.c:9-42: n = 0 frees, same size returns the block, NULL allocates, otherwise realloc *)
+    let ba := blocks_of (sget (r_store st) a) in
+    match hd None ba with
+    | None => let (b, st1) := alloc st n in (ONormal, sset (sset st1 d (Res (b :: tl ba))) a (Res [None]))
+    | Some (ida, na) =>
+      if N.eqb n 0 then
+        (ONormal, sset (sset (emit st (Ev ida na 0 0)) d (Res (None :: tl ba))) a (Res [None]))
+      else if N.eqb n na then
+        (ONormal, sset (sset (emit st (Ev ida na na ida)) d (Res (Some (ida, na) :: tl ba))) a (Res [None]))
+      else
+        let id := r_next st in
+        let st1 := mkR (r_store st) (N.succ id) (Ev ida na n id :: r_led st) (r_oracle st) in
+        (ONormal, sset (sset st1 d (Res (Some (id, n) :: tl ba))) a (Res [None]))
+    end
+  | IOverwritePart s k src =>
+    (ONormal, sset st s (Res (put_part (blocks_of (sget (r_store st) s)) k (blocks_of (sget (r_store st) src)))))
   | IAbsorb d s =>
     (ONormal, sset st d (Res (blocks_of (sget (r_store st) d) ++ blocks_of (sget (r_store st) s))))
   | IAbsorbCopy d p =>
